@@ -3,6 +3,8 @@ From Coq Require Import NArith ZArith List Bool Lia.
 Import ListNotations.
 From PV Require Import C25.Model.
 Open Scope N_scope.
+Arguments pad32 : simpl never.
+Arguments trunc127 : simpl never.
 
 Lemma beq_eq a b : beq a b = true <-> a = b.
 Proof.
@@ -22,6 +24,9 @@ Proof. destruct a; cbn; congruence. Qed.
 
 Lemma eff_owner_self a : eff_owner a [] = a.
 Proof. destruct a; reflexivity. Qed.
+
+Lemma eR_write_enc r o u p : eR (write_enc r o u p) = r.
+Proof. unfold write_enc. destruct (aes256 r); reflexivity. Qed.
 
 Section P.
 Variable prep : bytes -> option bytes.
@@ -73,6 +78,20 @@ Proof.
     + split; [congruence|]. intros H. inversion H as [H1]. rewrite H1, beq_refl in E. congruence.
 Qed.
 
+(* the owner slot holds a password the reader's preparation rejects: setupEncryptionKey stops with that error *)
+Definition slot_err (r : N) (a : bytes) : Prop := aes256 r = true /\ a <> [] /\ prep a = None.
+
+Lemma validate_owner_err e a b : validate_owner prep e a b = VErr <-> slot_err (eR e) a.
+Proof.
+  unfold validate_owner, slot_err. destruct (aes256 (eR e)).
+  - destruct a as [|a0 a']; cbn [is_empty].
+    + split; [congruence|]. intros (_ & H & _). congruence.
+    + destruct (prep (a0 :: a')) as [p|].
+      * destruct (beq (trunc127 p) (eO e)); split; try congruence; intros (_ & _ & H); congruence.
+      * split; [intros _; repeat split; congruence|reflexivity].
+  - destruct (beq (pad32 (eff_owner a b)) (eO e)); split; try congruence; intros (H & _); congruence.
+Qed.
+
 (* ---- the decision function ---- *)
 
 Lemma setup_key_neither nb ow us pk be hp :
@@ -91,7 +110,7 @@ Proof. destruct ow, us, nb, pk, be, hp; cbn; intros H; try congruence; auto. Qed
 Lemma access_opened_iff nb e a b :
   opened (access prep nb e a b) = true <->
   if nb then validate_owner prep e a b = VOk /\ validate_user prep e b = VOk
-  else validate_owner prep e a b = VOk \/ validate_user prep e b = VOk.
+  else validate_owner prep e a b = VOk \/ (validate_owner prep e a b <> VErr /\ validate_user prep e b = VOk).
 Proof.
   unfold access. destruct (validate_owner prep e a b), (validate_user prep e b), nb,
     (is_empty a && is_empty b); cbn; intuition congruence.
@@ -251,12 +270,12 @@ Proof.
     inversion Hstep; subst d'. cbn [cur_step]. unfold rel, write_enc, wstore in *.
     assert (Hne : opw <> []) by (intros ->; cbn in Eo; congruence).
     destruct (aes256 r) eqn:Ea; cbn; rewrite ?Ea.
-    + repeat split; try reflexivity; try assumption; intros _;
-        cbn in Hwp; rewrite Ea in Hwp; specialize (Hwp eq_refl); inversion Hwp as [|? ? H1 H2]; subst;
-        inversion H2; subst; repeat split; assumption || apply H1 || idtac.
-      all: try (destruct H1; assumption).
-      all: try (match goal with H : wp upw |- _ => destruct H; assumption end).
-    + rewrite eff_owner_nonempty by assumption. repeat split; try reflexivity. congruence.
+    + cbn in Hwp. rewrite Ea in Hwp. specialize (Hwp eq_refl).
+      inversion Hwp as [|? ? Hw1 Hw2]; subst. inversion Hw2 as [|? ? Hw3 _]; subst.
+      refine (conj eq_refl (conj eq_refl (conj eq_refl _))). intros _.
+      exact (conj Hne (conj Hw1 Hw3)).
+    + rewrite eff_owner_nonempty by assumption.
+      refine (conj eq_refl (conj eq_refl (conj eq_refl _))). congruence.
   - (* decrypt *)
     destruct d as [|e]; [congruence|]. destruct (opened (access prep false e opw upw)); [|congruence].
     inversion Hstep; subst. destruct g; cbn; exact I.
@@ -268,14 +287,13 @@ Proof.
     apply validate_owner_ok in Hown. unfold owner_ok in Hown.
     cbn [cur_step option_map]. unfold rel, write_enc. rewrite HR in *.
     destruct (aes256 (cR c)) eqn:Ea; cbn; unfold wstore; rewrite ?Ea.
-    + destruct Hown as [Hne Hacc]. cbn in Hwp. rewrite HR, Ea in Hwp. specialize (Hwp eq_refl).
+    + destruct Hown as [Hne Hacc]. cbn in Hwp. rewrite eR_write_enc, Ea in Hwp. specialize (Hwp eq_refl).
       inversion Hwp as [|? ? Hw1 Hw2]; subst. inversion Hw2 as [|? ? Hw3 _]; subst.
       assert (Hie : is_empty opw = false) by (destruct opw; cbn; congruence). rewrite Hie.
       pose proof (rprep_wp _ _ _ Ea Hw1 Hacc) as Heq.
       rewrite HO in Heq. unfold wstore in Heq. rewrite Ea in Heq.
-      repeat split; try reflexivity; try assumption.
-      * congruence.
-      * intros _. destruct (HA eq_refl) as (Hn & Hwo & Hwu). repeat split; assumption.
+      refine (conj eq_refl (conj Heq (conj eq_refl _))). intros _.
+      destruct (HA eq_refl) as (Hn & Hwo & Hwu). exact (conj Hn (conj Hwo Hw3)).
     + repeat split; try reflexivity; try congruence.
       destruct (is_empty opw) eqn:Hie.
       * apply is_empty_nil in Hie. subst opw. reflexivity.
@@ -293,7 +311,7 @@ Proof.
     assert (Hne : on <> []) by (intros ->; cbn in Eon; congruence).
     cbn [cur_step option_map]. unfold rel, write_enc. rewrite HR in *.
     destruct (aes256 (cR c)) eqn:Ea; cbn; unfold wstore; rewrite ?Ea.
-    + cbn in Hwp. rewrite HR, Ea in Hwp. specialize (Hwp eq_refl).
+    + cbn in Hwp. rewrite eR_write_enc, Ea in Hwp. specialize (Hwp eq_refl).
       inversion Hwp as [|? ? Hw1 Hw2]; subst. inversion Hw2 as [|? ? Hw3 _]; subst.
       pose proof (rprep_wp _ _ _ Ea Hw3 Husr) as Heq.
       rewrite HU in Heq. unfold wstore in Heq. rewrite Ea in Heq.
@@ -311,7 +329,7 @@ Proof.
     apply validate_owner_ok in Hown. unfold owner_ok in Hown. apply validate_user_ok in Husr.
     cbn [cur_step]. unfold rel, write_enc. rewrite HR in *.
     destruct (aes256 (cR c)) eqn:Ea; cbn; unfold wstore; rewrite ?Ea.
-    + destruct Hown as [Hne Hacc]. cbn in Hwp. rewrite HR, Ea in Hwp. specialize (Hwp eq_refl).
+    + destruct Hown as [Hne Hacc]. cbn in Hwp. rewrite eR_write_enc, Ea in Hwp. specialize (Hwp eq_refl).
       inversion Hwp as [|? ? Hw1 Hw2]; subst. inversion Hw2 as [|? ? Hw3 _]; subst.
       pose proof (rprep_wp _ _ _ Ea Hw1 Hacc) as Heq1. pose proof (rprep_wp _ _ _ Ea Hw3 Husr) as Heq2.
       rewrite HO in Heq1. rewrite HU in Heq2. unfold wstore in Heq1, Heq2. rewrite Ea in Heq1, Heq2.
@@ -336,10 +354,10 @@ Definition owner_accepts (c : creds) (a b : bytes) : Prop :=
 
 Lemma opens_iff e c a b :
   rel (Encrypted e) (Some c) ->
-  (opens prep e a b = true <-> owner_accepts c a b \/ accepts (cR c) (cU c) b).
+  (opens prep e a b = true <-> owner_accepts c a b \/ (~ slot_err (cR c) a /\ accepts (cR c) (cU c) b)).
 Proof.
   intros (HR & HO & HU & _). unfold opens. rewrite (access_opened_iff false).
-  rewrite validate_owner_ok, validate_user_ok. unfold owner_ok, owner_accepts, accepts.
+  rewrite validate_owner_ok, validate_user_ok, validate_owner_err. unfold owner_ok, owner_accepts, accepts.
   rewrite HR, HO, HU. reflexivity.
 Qed.
 
@@ -355,7 +373,7 @@ Proof.
   - apply (opens_iff _ _ _ _ Hrel). left. unfold owner_accepts. destruct (aes256 (cR c)) eqn:Ea.
     + split; [apply (HA eq_refl)|exact HaccO].
     + rewrite eff_owner_self. exact HaccO.
-  - apply (opens_iff _ _ _ _ Hrel). right. exact HaccU.
+  - apply (opens_iff _ _ _ _ Hrel). right. split; [|exact HaccU]. intros (_ & H & _). congruence.
   - intros Hne. apply (access_opened_iff true). rewrite validate_owner_ok, validate_user_ok. unfold owner_ok.
     rewrite HR, HO, HU. split; [|exact HaccU].
     destruct (aes256 (cR c)) eqn:Ea.
@@ -371,11 +389,11 @@ Lemma stale_rejected e c x :
 Proof.
   intros Hrel HnO HnU. split.
   - destruct (opens prep e [] x) eqn:E; [|reflexivity]. exfalso.
-    apply (opens_iff _ _ _ _ Hrel) in E. destruct E as [E|E]; [|contradiction].
+    apply (opens_iff _ _ _ _ Hrel) in E. destruct E as [E|[_ E]]; [|contradiction].
     unfold owner_accepts in E. destruct (aes256 (cR c)); [destruct E as [E _]; congruence|].
     cbn in E. contradiction.
   - intros HnE. destruct (opens prep e x []) eqn:E; [|reflexivity]. exfalso.
-    apply (opens_iff _ _ _ _ Hrel) in E. destruct E as [E|E]; [|contradiction].
+    apply (opens_iff _ _ _ _ Hrel) in E. destruct E as [E|[_ E]]; [|contradiction].
     unfold owner_accepts in E. destruct (aes256 (cR c)); [destruct E as [_ E]; contradiction|].
     rewrite eff_owner_self in E. contradiction.
 Qed.
